@@ -15,9 +15,10 @@ theorem inv_job_rmJ_cons {cfg : Cfg} {s : St} {d : Disk} (h : Inv cfg s d) {j : 
   obtain ⟨rfl, rfl⟩ := hs
   have hpost : j.pc.post = true := by rw [hpc]; rfl
   have hopen := h.post_open hj hpost
-  obtain ⟨mf, v, hcur, hun, hlv, hv0, hmir⟩ := hok.post_settled hpost hopen
+  have hcases := h.post_cases hj hpost
+  obtain ⟨mf, v0, v, hparts, hlv, _⟩ := h.disk.last
+  have hcur := hparts.cur
   have hnr : ∀ m, j.pc ≠ .rotRemove m := by rw [hpc]; intro m hm; cases hm
-  have hfd := (h.mfd hj).fd hj hnr
   have hph := h.not_crashed hj
   have hb := h.bounds hph
   -- the removal clause
@@ -27,34 +28,52 @@ theorem inv_job_rmJ_cons {cfg : Cfg} {s : St} {d : Disk} (h : Inv cfg s d) {j : 
   unfold RemovalsOK at hrm
   rw [hpc] at hrm
   simp only at hrm
-  obtain ⟨hrmj, hrmt, hrmc⟩ := hrm
+  obtain ⟨hrmj, hrmt, hrmc, hrme⟩ := hrm
   have hnotc : ¬ (j.kind = .compaction ∨ j.kind = .tr) := fun hk => by have := hrmc hk; cases this
   obtain ⟨hn1, hn2⟩ := hrmj n List.mem_cons_self
   let j' : Job := { j with pc := .rmJ rest }
   let d1 : Disk := { d with journals := d.journals.erase n }
-  have hmfd' : MfdOK { s with job := some j' } d1 := MfdOK.of_fd (j := j') rfl (by intro x hx; cases hx) hfd
-  have hbv := hb.all mf hcur 0 (Nat.zero_le _) v hv0
-  have hnj : s.phase = .running → n ≠ s.jcur := by
-    intro hr
-    rcases hn1 with h1 | ⟨h1, _⟩
-    · have := hbv.2.2 hr; omega
-    · omega
+  have hmfd' : MfdOK { s with job := some j' } d1 := (h.mfd hj).transport (s' := { s with job := some j' })
+    (by rw [hj]; intro m hm; exact hnr m (Option.some.inj hm)) (by intro m hm; cases hm) rfl rfl rfl
+  have hlimbo' : LimboOK { s with job := some j' } d1 := by
+    rcases hcases with ⟨hl, _⟩ | ⟨he, _, hr, _⟩
+    · exact LimboOK.of_none hl
+    · exact (h.run hr).limbo.job_pc hj j' s.nextFile rfl rfl (fun hx => by rw [hpc] at hx; cases hx) (Or.inl he) rfl
+        (Nat.le_refl _)
+  have hkey : (s.phase = .running → n ≠ s.jcur) ∧
+      ∀ mf1, curManifest d = some mf1 → ∀ k ≤ mf1.unsynced.length, ∀ v1, viewAt cfg mf1 k = some v1 →
+        n < v1.jn ∨ ∀ p ∈ d.journals, p.1 = n → ∀ g ∈ p.2.all, g ∉ must s := by
+    rcases hcases with ⟨hl, _⟩ | ⟨he, _, _, _, jf, _, hrj, hjlt, hst⟩
+    · obtain ⟨mf', v', hcur', hun, hlv', hv0, _⟩ := hok.post_settled hpost hopen hl
+      rw [hcur] at hcur'; cases hcur'
+      rw [hlv] at hlv'; cases hlv'
+      have hbv := hb.all mf hcur 0 (Nat.zero_le _) v hv0
+      refine ⟨fun hr => ?_, fun mf1 hc1 k hk v1 hv1 => ?_⟩
+      · rcases hn1 with h1 | ⟨h1, _⟩
+        · have := hbv.2.2 hr; omega
+        · omega
+      · rw [hcur] at hc1; cases hc1
+        have : k = 0 := by simpa [hun] using hk
+        subst this
+        rw [hv0] at hv1; cases hv1
+        rcases hn1 with h1 | ⟨_, h1⟩
+        · exact Or.inl h1
+        · exact Or.inr (fun p hp hpn g hg => (h1 p hp hpn g hg).1)
+    · have hnjf : n = jf := by
+        have := hrme he n List.mem_cons_self
+        rw [hrj] at this
+        exact List.mem_singleton.1 this
+      subst hnjf
+      exact ⟨fun _ => by omega, fun mf1 hc1 k hk v1 hv1 => Or.inr hst⟩
+  have hnj := hkey.1
   constructor
-  · apply h.disk.journal_remove n
-    intro mf1 hc1 k hk v1 hv1
-    rw [hcur] at hc1; cases hc1
-    have : k = 0 := by simpa [hun] using hk
-    subst this
-    rw [hv0] at hv1; cases hv1
-    rcases hn1 with h1 | ⟨_, h1⟩
-    · exact Or.inl h1
-    · exact Or.inr (fun p hp hpn g hg => (h1 p hp hpn g hg).1)
+  · exact h.disk.journal_remove n hkey.2
   · exact h.mm.of_same rfl rfl
   · intro _
     exact hb.of_same rfl (h.seqHi_step hj rfl rfl rfl rfl (fun hb' => nomatch hb')) (Nat.le_refl _)
       (fun hr => ⟨hr, Nat.le_refl _⟩)
   · intro hr
-    refine (h.run hr).rmJ j' n (hnj hr) ?_ hmfd'
+    refine (h.run hr).rmJ j' n (hnj hr) ?_ hmfd' hlimbo'
     intro hfp
     have hfp' : j'.kind = .flush → j'.pc.beforeCommit = true := hfp
     rcases hok.kind_running hr with hk | hk
@@ -86,7 +105,7 @@ theorem inv_job_rmJ_cons {cfg : Cfg} {s : St} {d : Disk} (h : Inv cfg s d) {j : 
       simp only [Holds]
       unfold RemovalsOK
       simp only
-      refine ⟨fun m hm => ?_, hrmt, fun hk => absurd hk hnotc⟩
+      refine ⟨fun m hm => ?_, hrmt, fun hk => absurd hk hnotc, fun he m hm => hrme he m (List.mem_cons_of_mem _ hm)⟩
       obtain ⟨a, b⟩ := hrmj m (List.mem_cons_of_mem _ hm)
       refine ⟨?_, b⟩
       rcases a with a | ⟨a1, a2⟩
@@ -111,6 +130,7 @@ theorem inv_job_rmJ_nil {cfg : Cfg} {s : St} {d : Disk} (h : Inv cfg s d) {j : J
   have hpf := phase_frame (d' := d) h j' s.nextFile (Nat.le_refl _) rfl rfl rfl (by intro m hm; cases hm)
     ⟨j, hj, hnr⟩ (fun hb' => by cases hb')
     (fun j0 h0 => by rw [hj] at h0; cases h0; exact ⟨rfl, fun _ _ => rfl⟩)
+    (fun _ => h.post_limbo hj hpost _ rfl (fun _ => rfl))
   obtain ⟨mf, v0, v, hparts, hlv, _⟩ := h.disk.last
   have hrm := hok.removals
   rw [hlv] at hrm
@@ -136,7 +156,10 @@ theorem inv_job_rmJ_nil {cfg : Cfg} {s : St} {d : Disk} (h : Inv cfg s d) {j : J
     · rw [hlv]
       simp only [Holds]
       unfold RemovalsOK
-      exact hrm.2.1
+      refine ⟨hrm.2.1, fun he => ?_⟩
+      rcases h.post_cases hj hpost with ⟨_, hne⟩ | ⟨_, _, _, hrt, _⟩
+      · exact absurd he hne
+      · exact hrt
     · exact fun _ _ _ _ _ => rfl
 
 end GoLevel.Dur
